@@ -70,7 +70,9 @@ impl<'a> IntersectionParams<'a> {
     /// Check whether two almost-colinear lines are intersecting in the wrong place due to numerical
     /// inaccuracies.
     pub fn nearly_colinear_has_error(&self) -> bool {
-        self.denominator.pow(2) < self.line1.delta().dot_product(self.line2.delta()).abs()
+        // Note: the squared denominator doesn't fit into 32 bits for display sized lines.
+        i64::from(self.denominator).pow(2)
+            < i64::from(self.line1.delta().dot_product(self.line2.delta()).abs())
     }
 
     /// Compute the intersection point.
@@ -97,13 +99,12 @@ impl<'a> IntersectionParams<'a> {
         // If we got here, line segments intersect. Compute intersection point using method similar
         // to that described here: http://paulbourke.net/geometry/pointlineplane/#i2l
 
-        let origin_distances = Point::new(line1.origin_distance, line2.origin_distance);
+        // Note: the numerators don't fit into 32 bits for display sized lines.
+        let x_numerator = i64::from(line1.origin_distance) * i64::from(line2.normal_vector.y)
+            - i64::from(line2.origin_distance) * i64::from(line1.normal_vector.y);
 
-        let x_numerator =
-            origin_distances.determinant(Point::new(line1.normal_vector.y, line2.normal_vector.y));
-
-        let y_numerator =
-            Point::new(line1.normal_vector.x, line2.normal_vector.x).determinant(origin_distances);
+        let y_numerator = i64::from(line1.normal_vector.x) * i64::from(line2.origin_distance)
+            - i64::from(line2.normal_vector.x) * i64::from(line1.origin_distance);
 
         Intersection::Point {
             point: Point::new(
@@ -119,11 +120,11 @@ impl<'a> IntersectionParams<'a> {
 ///
 /// Ties are always rounded towards positive infinity instead of away from zero. This makes the
 /// rounded intersection point independent of the position of the lines relative to the origin.
-fn div_round(numerator: i32, denominator: i32) -> i32 {
+fn div_round(numerator: i64, denominator: i32) -> i32 {
     let (numerator, denominator) = if denominator < 0 {
-        (-i64::from(numerator), -i64::from(denominator))
+        (-numerator, -i64::from(denominator))
     } else {
-        (i64::from(numerator), i64::from(denominator))
+        (numerator, i64::from(denominator))
     };
 
     (2 * numerator + denominator).div_euclid(2 * denominator) as i32
